@@ -20,15 +20,21 @@ PID = 'C19'
 VERIF = os.path.dirname(os.path.dirname(os.path.dirname(os.path.abspath(__file__))))
 
 # repairs present in /repo (identifiers of spec/Savable.tla: FL1 recorded loader read from the user block, FL2 recorded
-# loader instantiated, FL3 nested savables saved with the save context, FFC cancelled futures can be saved)
+# loader instantiated, FL3 nested savables saved with the save context, FFC cancelled futures can be saved,
+# FH1 the classmethod Savable.auto_persist gives a class its own copy of an inherited set before adding to it)
 FIXES = ['FL1', 'FL2', 'FL3', 'FFC']      # repaired in /repo: d4b788d (FL1, FL2), 8989551 (FL3), 79c2991 (FFC)
-ALL_FIXES = ['FL1', 'FL2', 'FL3', 'FFC']
-DEVIATIONS = ['D19a', 'D19b', 'D19c']
-KINDS = ['value', 'none', 'method', 'sav1', 'sav2', 'futP', 'futR', 'futE', 'futC']
+ALL_FIXES = ['FL1', 'FL2', 'FL3', 'FFC', 'FH1']
+DEVIATIONS = ['D19a', 'D19b', 'D19c', 'D19d']
+KINDS = ['value', 'none', 'method', 'tuple', 'sav1', 'sav2', 'futP', 'futR', 'futT', 'futE', 'futC']
+KINDS9 = ['value', 'none', 'method', 'sav1', 'sav2', 'futP', 'futR', 'futE', 'futC']
+# family A: decorator-declared chains x every member kind x loader configurations x unknown class names
+FAM_A = dict(kinds=KINDS, loaders=None, unknowns=None, ways=['deco'], orders=[])
+# family B: how members are declared (decorator | persist() hook) x which other class of the chain was used first x copied values
+FAM_B = dict(kinds=['value', 'method', 'tuple'], loaders=['default'], unknowns=[], ways=['deco', 'hook'], orders=['parent', 'child'])
 LOADERS = ['default', 'global', 'persave', 'ctxboth']
 UNKNOWNS = ['noattr', 'malformed', 'nocls', 'nometa', 'nested']
 PROPS = ['RoundTrip', 'ValuesEqual', 'CopiedAtSave', 'MethodsRebound', 'NestedRecreated', 'FutureState', 'LoaderPrecedence',
-         'UnknownIsValueError']
+         'UnknownIsValueError', 'SetsIntact']
 WHAT = {
     'D19a': 'the object loader recorded in the saved state is never used: save() writes its identifier to '
             "['!!meta']['user']['object_loader'], _ensure_object_loader reads ['!!meta']['object_loader'] (and would use the "
@@ -36,6 +42,9 @@ WHAT = {
     'D19b': 'save_members saves a nested Savable with value.save(), without the save context: its class name comes from the '
             'global loader while the load context hands the outer (custom) loader down to it',
     'D19c': 'saving a cancelled SavableFuture raises CancelledError (save_instance_state calls exception() on it)',
+    'D19d': 'the classmethod Savable.auto_persist (as called from a persist() hook) updates whatever set the attribute lookup finds: a '
+            'class without a set of its own (no decorator) adds its members to its ANCESTOR\'s set; once an instance of that subclass '
+            'was saved or loaded, instances of the ancestor persist members they never declared (AttributeError if they lack them)',
 }
 
 
@@ -46,34 +55,45 @@ def fixes():
     return [f for f in re.split(r'[,\s]+', env.strip()) if f]
 
 
-def mc(name, names, maxchain, fx, known, only_chains=(), invariants=(), detail=True):
+def mc(name, names, maxchain, fx, known, only_chains=(), invariants=(), detail=True, kinds=KINDS, loaders=None, unknowns=None,
+       ways=('deco',), orders=()):
     if only_chains:
         tla = '---- MODULE %s ----\nEXTENDS Savable\nMCOnly == {%s}\n====\n' % (name, ', '.join(tlaval.emit(c) for c in only_chains))
     else:
         tla = '---- MODULE %s ----\nEXTENDS Savable\nMCOnly == {}\n====\n' % name
     cfg = 'SPECIFICATION Spec\nCHECK_DEADLOCK FALSE\nCONSTANTS\n Names = %s\n MaxChain = %d\n Kinds = %s\n Loaders = %s\n Unknowns = %s\n' % (
-        tlaval.emit(set(names)), maxchain, tlaval.emit(set(KINDS)), tlaval.emit(set(LOADERS)), tlaval.emit(set(UNKNOWNS)))
+        tlaval.emit(set(names)), maxchain, tlaval.emit(set(kinds)), tlaval.emit(set(LOADERS if loaders is None else loaders)),
+        tlaval.emit(set(UNKNOWNS if unknowns is None else unknowns)))
+    cfg += ' Ways = %s\n Orders = %s\n' % (tlaval.emit(set(ways)), tlaval.emit(set(orders)))
     cfg += ' Fixes = %s\n Known = %s\n OnlyChains <- MCOnly\n Detail = %s\n' % (tlaval.emit(set(fx)), tlaval.emit(set(known)), 'TRUE' if detail else 'FALSE')
     cfg += ''.join('INVARIANT %s\n' % i for i in invariants)
     return tla, cfg
 
 
 def chain_tla(chain):
-    return [{'deco': d['deco'], 'names': set(d['names'])} for d in chain]
+    return [{'way': d['way'], 'names': set(d['names'])} for d in chain]
 
 
-def random_chains(rng, names, length, n):
+def all_chains(names, length, ways):
+    """Every chain of exactly `length` classes (the specification's Decls)."""
+    import itertools
     subs = [[x for i, x in enumerate(names) if m >> i & 1] for m in range(1 << len(names))]
-    out, seen = [], set()
-    while len(out) < n:
-        ch = []
-        for _ in range(length):
-            ch.append({'deco': False, 'names': []} if rng.random() < 0.15 else {'deco': True, 'names': rng.choice(subs)})
-        key = json.dumps(ch)
-        if key not in seen:
-            seen.add(key)
-            out.append(ch)
-    return out
+    decls = [{'way': 'none', 'names': []}]
+    if 'deco' in ways:
+        decls += [{'way': 'deco', 'names': sub} for sub in subs]
+    if 'hook' in ways:
+        decls += [{'way': 'hook', 'names': sub} for sub in subs if sub]
+    return [list(c) for c in itertools.product(decls, repeat=length)]
+
+
+def sample_chains(rng, names, maxchain, ways, n_longest):
+    """All chains shorter than maxchain plus a seeded sample of n_longest chains of maxchain classes."""
+    out = []
+    for ln in range(1, maxchain):
+        out += all_chains(names, ln, ways)
+    longest = all_chains(names, maxchain, ways)
+    rng.shuffle(longest)
+    return [chain_tla(c) for c in out + longest[:n_longest]]
 
 
 # ---- replay of a dumped universe on the real code ----------------------------------------------------------
@@ -83,13 +103,13 @@ _NODE = re.compile(r'^(-?\d+) \[label="((?:[^"\\]|\\.)*)"')
 def persisted(inst):
     out = set()
     for d in inst['chain'][:inst['t']]:
-        if d['deco']:
-            out |= set(d['names'])
+        out |= set(d['names'])
     return out
 
 
 def size(inst):
-    return (len(inst['chain']), len(persisted(inst)), sum(len(d['names']) for d in inst['chain']), inst['unk'] != 'none', json.dumps(inst, sort_keys=True))
+    return (len(inst['chain']), len(persisted(inst)), sum(len(d['names']) for d in inst['chain']), inst['unk'] != 'none', inst.get('first', 0) != 0,
+            json.dumps(inst, sort_keys=True))
 
 
 def _work(args):
@@ -141,15 +161,26 @@ def _work(args):
     return n, nontrivial, div, census, sample
 
 
-def dump_replay(name, names, maxchain, fx, only_chains=()):
+def dump_replay(name, names, maxchain, fx, only_chains=(), verdict=None, **fam):
+    """verdict = (invariants, known): the property invariants are checked in the same TLC run (quick tier); a violation stops TLC
+    early, so the run is then repeated without them to get the complete dump."""
     """Dump the universe with TLC, execute every instance on the real code. -> summary dict"""
-    tla, cfg = mc(name, names, maxchain, fx, [], only_chains, invariants=['C19_Explained', 'C19_AutoPersist'])
+    base_invs = ['C19_Explained', 'C19_AutoPersist']
+    tla, cfg = mc(name, names, maxchain, fx, verdict[1] if verdict else [], only_chains,
+                  invariants=(list(verdict[0]) if verdict else []) + base_invs, **fam)
     t0 = time.time()
+    first = None
     with tlc.Workdir() as wd:
         wd.write(name + '.tla', tla)
         wd.write(name + '.cfg', cfg)
         dot = os.path.join(wd.path, 'graph')
-        res = tlc.run(wd, name + '.tla', name + '.cfg', args=['-dump', 'dot,actionlabels', dot], workers=10)
+        res = tlc.run(wd, name + '.tla', name + '.cfg', args=['-dump', 'dot,actionlabels', dot], workers=10 if not verdict else None)
+        if verdict and res.violated and res.violated not in base_invs:
+            first = res
+            tla, cfg = mc(name, names, maxchain, fx, [], only_chains, invariants=base_invs, **fam)
+            wd.write(name + '.tla', tla)
+            wd.write(name + '.cfg', cfg)
+            res = tlc.run(wd, name + '.tla', name + '.cfg', args=['-dump', 'dot,actionlabels', dot])
         if res.violated:
             return {'name': name, 'tlc_violated': res.violated, 'trace': res.trace(), 'states': res.distinct, 'generated': res.generated}
         if not res.ok:
@@ -178,7 +209,7 @@ def dump_replay(name, names, maxchain, fx, only_chains=()):
     if n != done_states:
         raise tlc.MachineryError('%s: %d instances replayed but TLC reports %d instance states' % (name, n, done_states))
     return {'name': name, 'states': res.distinct, 'generated': res.generated, 'instances': n, 'nontrivial': nontrivial, 'divergent': div,
-            'census': census, 'samples': samples, 'tlc_s': round(t1 - t0, 1), 'replay_s': round(time.time() - t1, 1)}
+            'verdict': (first or res) if verdict else None, 'census': census, 'samples': samples, 'tlc_s': round(t1 - t0, 1), 'replay_s': round(time.time() - t1, 1)}
 
 
 def res_initial(res):
@@ -206,13 +237,22 @@ def run(tier, seed):
     rng = random.Random(seed)
     invs = ['C19_' + p for p in PROPS] + ['C19_AutoPersist']
     if tier == 'quick':
-        verdict = [dict(name='MC_C19_ab3', names='ab', maxchain=3)]
-        replays = [dict(name='MC_C19_dump_ab3', names='ab', maxchain=3)]
+        # quick: every chain of <=2 classes and a seeded sample of the 3-class chains, two names
+        ca = sample_chains(rng, 'ab', 3, FAM_A['ways'], 40)
+        cb = sample_chains(rng, 'ab', 3, FAM_B['ways'], 150)
+        verdict = []          # the property invariants are checked in the dump runs themselves
+        replays = [dict(name='MC_C19_A_ab3s', names='ab', maxchain=3, only_chains=ca, verdict=(invs, known), **FAM_A),
+                   dict(name='MC_C19_B_ab3s', names='ab', maxchain=3, only_chains=cb, verdict=(invs, known), **FAM_B)]
     else:
-        verdict = [dict(name='MC_C19_abc3', names='abc', maxchain=3)]
-        replays = [dict(name='MC_C19_dump_ab3', names='ab', maxchain=3),
-                   dict(name='MC_C19_dump_abc2', names='abc', maxchain=2),
-                   dict(name='MC_C19_dump_abc3s', names='abc', maxchain=3, only_chains=[chain_tla(c) for c in random_chains(rng, 'abc', 3, 24)])]
+        verdict = [dict(name='MC_C19_A_abc3_k9', names='abc', maxchain=3, **dict(FAM_A, kinds=KINDS9)),
+                   dict(name='MC_C19_A_abc2', names='abc', maxchain=2, **FAM_A),
+                   dict(name='MC_C19_A_ab3', names='ab', maxchain=3, **FAM_A),
+                   dict(name='MC_C19_B_abc3', names='abc', maxchain=3, **FAM_B)]
+        replays = [dict(name='MC_C19_dump_A_ab3', names='ab', maxchain=3, **FAM_A),
+                   dict(name='MC_C19_dump_A_abc2', names='abc', maxchain=2, **FAM_A),
+                   dict(name='MC_C19_dump_A_abc3s', names='abc', maxchain=3, only_chains=[chain_tla(c) for c in rng.sample(all_chains('abc', 3, ['deco']), 16)], **FAM_A),
+                   dict(name='MC_C19_dump_B_ab3', names='ab', maxchain=3, **FAM_B),
+                   dict(name='MC_C19_dump_B_abc3s', names='abc', maxchain=3, only_chains=[chain_tla(c) for c in rng.sample(all_chains('abc', 3, ['deco', 'hook']), 400)], **FAM_B)]
     violations = 0
     states = transitions = 0
     mc_summ = []
@@ -221,7 +261,7 @@ def run(tier, seed):
     verdict_res = {}
 
     def verdict_run(v):
-        tla, cfg = mc(v['name'], v['names'], v['maxchain'], fx, known, invariants=invs, detail=False)
+        tla, cfg = mc(invariants=invs, detail=False, fx=fx, known=known, **v)
         try:
             with tlc.Workdir() as wd:
                 wd.write(v['name'] + '.tla', tla)
@@ -229,7 +269,12 @@ def run(tier, seed):
                 verdict_res[v['name']] = tlc.run(wd, v['name'] + '.tla', v['name'] + '.cfg', timeout=3000, workers=8 if tier == 'quick' else 12)
         except Exception as e:  # noqa
             verdict_res[v['name']] = e
-    threads = [threading.Thread(target=verdict_run, args=(v,)) for v in verdict]
+    separate = list(verdict)
+
+    def verdicts():
+        for v in separate:
+            verdict_run(v)
+    threads = [threading.Thread(target=verdicts)]
     for t in threads:
         t.start()
     # (2) every instance of the dumped universes on the real code
@@ -246,6 +291,9 @@ def run(tier, seed):
             print('VIOLATION property=%s replay=%s' % (PID, path))
             violations += 1
             continue
+        if g.get('verdict') is not None:
+            verdict.append(dict(r, name=g['name'], same_run=not g['verdict'].violated))
+            verdict_res[g['name']] = g['verdict']
         states += g['states']
         transitions += g['generated']
         replayed += g['instances']
@@ -270,9 +318,11 @@ def run(tier, seed):
         res = verdict_res[v['name']]
         if isinstance(res, Exception):
             raise res
-        states += res.distinct
-        transitions += res.generated
-        mc_summ.append({'instance': v['name'], 'names': sorted(v['names']), 'max_chain': v['maxchain'], 'distinct_states': res.distinct,
+        if not v.get('same_run'):
+            states += res.distinct
+            transitions += res.generated
+        mc_summ.append({'instance': v['name'], 'names': sorted(v['names']), 'max_chain': v['maxchain'], 'kinds': len(v['kinds']),
+                        'declared_by': v['ways'], 'order_of_use': v['orders'], 'chains': len(v.get('only_chains', ())) or 'all', 'distinct_states': res.distinct,
                         'states_generated': res.generated, 'invariants': invs, 'violated': res.violated, 'wall_s': round(res.wall, 1),
                         'complete': bool(res.ok)})
         if res.violated:
@@ -319,15 +369,21 @@ def run(tier, seed):
     cov = {
         'states': max(states, 1), 'transitions': max(transitions, 1), 'traces_validated_against_impl': replayed,
         'samples': samples or [{'note': 'nothing replayed'}], 'evaluations': replayed, 'distinct_nontrivial': nontrivial,
-        'rule': 'instance = (chain of <=MaxChain classes each with no decorator or auto_persist(subset of Names), instantiated class, '
-                'kind of every persisted member from %s, loader configuration from %s, unknown-class flavour); every instance is one TLC '
-                'state and one execution of the real code (build classes with type(), save, tamper, mutate original, load, save again); '
-                'non-trivial = at least one persisted member; instances are distinct by construction' % (KINDS, LOADERS),
+        'rule': 'instance = (chain of <=MaxChain classes each declaring nothing, @auto_persist(subset of Names) or a persist() hook calling '
+                'cls.auto_persist(subset), instantiated class, kind of every persisted member, loader configuration, unknown-class flavour, '
+                'which other class of the chain was saved+loaded first); family A = decorators x kinds %s x loaders %s x unknown names; '
+                'family B = decorator|hook x order of use (none|an ancestor first|a descendant first) x kinds %s; every instance is one TLC '
+                'state and one execution of the real code (build classes with type(), use the other class, save, tamper, mutate original, '
+                'load, save again); non-trivial = at least one persisted member; instances are distinct by construction'
+                % (KINDS, LOADERS, FAM_B['kinds']),
         'exhaustive': True, 'model_checking': mc_summ, 'replay': rp_summ, 'property_failures_by_deviation': census_out,
         'deviation_clauses_exercised': sorted(devs_hit), 'fixes_modelled': fx, 'known_deviations': known,
     }
     evidence.write(PID, tier, seed, 'model_checking', cov, time.time() - t0, violations, [
-        'value domain: None, strings, one-cell mutable structures ({"c": [text]}); copy.deepcopy is trusted beyond that',
+        'value domain: None, strings, one-cell mutable structures ({"c": [text]}) and tuples holding one such structure (also as the '
+        'result of a future); copy.deepcopy is trusted beyond that',
+        'quick: all chains of <=2 classes and a seeded sample of the 3-class chains over two names (both the TLC verdict and the execution); '
+        'thorough: see model_checking/replay entries',
         'the custom loader uses an identifier scheme disjoint from DefaultObjectLoader\'s and raises ValueError for anything it cannot resolve',
         'nested Savables: helper classes N1 (value, method) and N2 (value, N1, resolved future): nesting depth 2',
         'exception objects held by futures are compared by tag, and are not mutated after the save',
